@@ -630,7 +630,18 @@ class Qcow2Suite(Suite):
                             "unknown_extra": None if s.unknown_extra is None else bytes(s.unknown_extra),
                             "id": s.id_str, "name": s.name})
             return out
-        return {"open": guard(meta), "snaps": guard(snaps)}
+        res = {"open": guard(meta), "snaps": guard(snaps)}
+        if res["open"][0] == "ok" and res["snaps"][0] == "ok":
+            # the header view does not depend on which snapshots were opened in between
+            hdr0 = bytes(q.header.dumps())
+            for s in q.snapshots:
+                guard(lambda s=s: s.open().read(512))
+            again = {"open": guard(meta), "snaps": guard(snaps)}
+            if again != res:
+                res["moved"] = f"view after opening the snapshots: {again!r:.300}"
+            elif bytes(q.header.dumps()) != hdr0:
+                res["moved"] = f"header record after opening the snapshots: {bytes(q.header.dumps()).hex()} (was {hdr0.hex()})"
+        return res
 
     def coq_term(self, case):
         chunks, size = q_build(case)
@@ -652,6 +663,8 @@ class Qcow2Suite(Suite):
         if f:
             return f
         fs = []
+        if impl_res.get("moved"):
+            fs.append(Finding("impl_vs_spec", f"qcow2: the exposed {impl_res['moved']}", "qcow2:history"))
         spec_m, spec_s = q_spec(case)
         _, cm, cs_, tie = coq_val          # ((meta, snaps), tie) prints flattened
         coq_val = ("", cm, cs_)
@@ -815,9 +828,10 @@ def x_gen(rng, tier, malformed=False, parent_ok=True):
             if std and rng.chance(0.7):
                 ents.append(list(std.pop()))
             else:
-                k = rand_text(rng, rng.randint(1, 12))
+                k = rng.weighted([("", 12), ("\ufeff", 1), ("\ufffe", 1)]) + rand_text(rng, rng.randint(1, 12))
                 if all(k != e[0] for e in ents):
-                    ents.append([k, rand_text(rng, rng.weighted([(0, 1), (rng.randint(1, 80), 5)]), extra=" \\")
+                    # (strings are UTF-16LE without a byte order mark: a leading U+FEFF / U+FFFE is part of the string)
+                    ents.append([k, rng.weighted([("", 8), ("\ufeff", 1), ("\ufffe", 1)]) + rand_text(rng, rng.weighted([(0, 1), (rng.randint(1, 80), 5)]), extra=" \\")
                                  + rng.weighted([("", 8), ("\x00", 1), (" ", 1)])])
         rng.shuffle(ents)
         order = list(range(2 * len(ents)))
